@@ -268,8 +268,12 @@ class CachedStore(Entity):
                 evict_key = self._eviction_policy.evict()
                 if evict_key is None:
                     break
-                self._cache.pop(evict_key, None)
-                self._dirty_keys.discard(evict_key)
+                evicted_value = self._cache.pop(evict_key, None)
+                if evict_key in self._dirty_keys:
+                    # Write-back: never drop unflushed data on eviction
+                    self._backing_store.put_sync(evict_key, evicted_value)
+                    self._dirty_keys.discard(evict_key)
+                    self._writebacks += 1
                 self._evictions += 1
 
             self._eviction_policy.on_insert(key)
